@@ -105,6 +105,8 @@ def tx_menu(w):
     if o0 and o1:
         v = U[o0[0]][0] + U[o1[0]][0]
         out['E-overlaps-A-and-C'] = world.mk_tx([(oref(o0[0]), K[0]), (oref(o1[0]), K[1])], [(v - 17, K[2])])
+        out['second-input-forged'] = world.mk_tx([(oref(o0[0]), K[0]), (oref(o1[0]), K[2])], [(v - 19, K[2])])
+        out['first-input-forged'] = world.mk_tx([(oref(o0[0]), K[2]), (oref(o1[0]), K[1])], [(v - 21, K[2])])
     out['no-inputs'] = world.mk_tx([], [(5, K[1])])
     out['null-reference'] = world.mk_tx([(world.ref(world.NULL32, 0), K[0])], [(5, K[1])])
     # a transaction that is already mined on the active chain
